@@ -4,6 +4,7 @@ import IslaVerif.Driver.C09
 import IslaVerif.Driver.C10
 import IslaVerif.Driver.C16
 import IslaVerif.Driver.C20
+import IslaVerif.Driver.C19
 namespace IslaVerif.Driver
 open IslaVerif
 
@@ -14,6 +15,7 @@ def dispatch : Sexp → Sexp
   | .list (.atom "c10" :: rest) => C10.handle rest
   | .list (.atom "c16" :: rest) => C16.handle rest
   | .list (.atom "c20" :: rest) => C20.handle rest
+  | .list (.atom "c19" :: rest) => C19.handle rest
   | _ => .atom "bad-request"
 
 end IslaVerif.Driver
